@@ -304,6 +304,7 @@ def run(ctx):
                     {"payload": {"kind": "seq", "tr": tr, "curve": curve, "ops": ops, "check": name, "key": k},
                      "what": "after %s (transforms=%s): key %r: %s" % (ops, tr, k, text)})
     res.cases = len(cases)
+    res.oracle_violations.sort(key=lambda v: len(v["payload"]["ops"]))      # shortest history first
     if ctx.build.model_ok:
         mism, err = lib.run_coq_cases("c15", [], ic.RUN_DIGEST, cases, shard=1000)
         res.corr_error = err
